@@ -26,6 +26,9 @@ def build(tier):
             body = f"return makegateway_leaves_no_process([{', '.join(f'l{k}' for k in range(nlive))}], new, explicit, {kind})\n"
             src = e1.make_module(PRELUDE, "h", ", ".join(params), pres, body)
             obs.append(Obligation(name=f"makegateway_{nlive}live_kind{kind}", module_src=src, fn="h", timeout=t, meta={"live": nlive, "kind": kind}))
+    src = e1.make_module(PRELUDE, "h", "new: str, explicit: bool", ["1 <= len(new) <= 2 and '/' not in new and '=' not in new"],
+                         "return makegateway_leaves_no_process([], new, explicit, 0, reuse_spec=True)\n")
+    obs.append(Obligation(name="makegateway_same_spec_object_twice", module_src=src, fn="h", timeout=t, meta={"live": 0, "kind": 0}))
     # an automatic id that is already taken by an explicitly named live gateway ("gw0")
     src = e1.make_module(PRELUDE, "h", "k: int", ["0 <= k <= 2"], "return makegateway_leaves_no_process(['gw0', 'gw1'][:k], 'x', False, 0)\n")
     obs.append(Obligation(name="makegateway_autoid_taken", module_src=src, fn="h", timeout=t, meta={"live": "gw0/gw1", "kind": 0}))
